@@ -92,6 +92,40 @@ def run_c10(tier):
             res.violation("taiko colour structure [%s build] for %s: expected %s observed %s" % (fs or "default", rec["types"], rec["expected"][:400], rec["observed"][:400]),
                           {"kind": "taiko-colour", "features": fs, "record": rec})
     os.remove(tscen)
+    # the taiko rhythm grouping (util/interval_grouping.rs used twice: notes -> same-rhythm groups -> same-pattern groups; Rc / Weak
+    # vs Arc / RwLock): TaikoRhythm.tla predicts both levels for every interval sequence over values 5 and 6 ms apart
+    rscen = os.path.join(common.OUT, "taikorhythm_%s_%d.ndjson" % (tier, pid))
+    with open(rscen, "w") as tf:
+        for (maxlen, ivs) in ([(6, "{100, 105, 106, 111, 200}"), (9, "{100, 105, 111}")] if tier == "quick"
+                              else [(8, "{100, 105, 106, 111, 200}"), (12, "{100, 105, 111}")]):
+            cfgp = os.path.join(common.OUT, "MC_TaikoRhythm_%d_%s_%d.cfg" % (maxlen, tier, pid))
+            with open(cfgp, "w") as f:
+                f.write("CONSTANTS\n  MaxLen = %d\n  Ivs = %s\nINIT Init\nNEXT Next\nINVARIANT WellFormed\nINVARIANT Printer\nCHECK_DEADLOCK FALSE\n" % (maxlen, ivs))
+            r = common.run_tlc("MC_TaikoRhythm", cfgp, workers=4 if tier == "quick" else 12, timeout=7200, name="MC_TaikoRhythm_%d_%s" % (maxlen, tier))
+            res.add_tlc(r)
+            os.remove(cfgp)
+            if not r["ok"]:
+                res.violation("TLC: the taiko rhythm grouping violates %s" % (r["violated"] or "a property"), {"kind": "tlc", "log_tail": common.tail_nonreplay(r["text"], 60)})
+                continue
+            part = rscen + ".part"
+            common.extract_replay(r["log"], part)
+            os.remove(r["log"])
+            tf.write(open(part).read())
+            os.remove(part)
+    for fs in ("", "sync"):
+        binp = common.build_harness(fs)
+        outp = rscen + ".%s.json" % (fs or "default")
+        p = common.run_harness(binp, ["taikorhythm-replay", rscen, outp], timeout=7200)
+        log("[%s] %s" % (fs or "default", p.stdout.strip().splitlines()[-1]))
+        out = json.load(open(outp))
+        os.remove(outp)
+        if out["machinery"]:
+            raise common.ToolError("taikorhythm-replay could not build its maps: %s" % out["records"][:2])
+        res.cov["traces_validated_against_impl"] += out["scenarios"]
+        for rec in out["records"][:6]:
+            res.violation("taiko rhythm grouping [%s build] for intervals %s: expected %s observed %s" % (fs or "default", rec["ivs"], rec["expected"][:400], rec["observed"][:400]),
+                          {"kind": "taiko-rhythm", "features": fs, "record": rec})
+    os.remove(rscen)
     # end to end: the same seeded scenario list in all four feature builds
     dumps = {}
     for fs in FEATURE_SETS:
